@@ -92,7 +92,7 @@ def generate(run_seed, prop, tier="quick"):
                     size, n_leaves = rng.randint(28, 45), rng.randint(11, 18)
                 item = gen_mol.build_item(rng, size=size, n_leaves=n_leaves,
                                           mid_levels=rng.choice([0, 1, 1, 2, 2, 2, 3, 3]), weights=rng.random() < 0.3,
-                                          hyper=("S", "P", "N") if rng.random() < 0.4 else (), explicit_h=rng.random() < 0.25,
+                                          hyper=rng.choice([(), (), ("S", "P", "N"), ("S", "P", "N", "exotic")]), explicit_h=rng.random() < 0.25,
                                           components=rng.choice([2, 2, 3]) if rng.random() < 0.12 else 1)
             else:
                 big = rng.random() < 0.1
